@@ -22,6 +22,9 @@ def git(*a):
     return run(["git"] + list(a))
 
 
+git("checkout", "--", ".")
+head = subprocess.run(["git", "-C", "/repo", "rev-parse", "HEAD"], stdout=subprocess.PIPE, text=True).stdout.strip()
+git("checkout", "-q", "--detach", head)   # confirm against /repo's current HEAD (with all fix: commits)
 assert git("status", "--porcelain", "--untracked-files=no")[1].strip() == "", "worktree not clean"
 demo = os.path.join(seed, "demo%s.py" % k)
 patch = os.path.join(seed, "patch%s.diff" % k)
